@@ -35,7 +35,7 @@ ASSUMPTIONS = [
     'parseable as a number',
 ]
 ANCHORS = ['Table.delimited_self', 'Table._extract_data_from_tsv', 'Table.from_tsv', '_convert', 'parse_biom_table']
-REQUIRED = ['export_legacy_function', 'export_other_column_name',
+REQUIRED = ['non_finite_value_in_last_column', 'export_legacy_function', 'export_other_column_name',
             'import_legacy_convert_table_to_biom', 'export_asked_for_absent_metadata', 'exported_again_after_change', 'export_to_tsv', 'export_str', 'export_direct_io',
             'export_cli', 'import_from_tsv_lines', 'import_from_tsv_handle',
             'import_load_table', 'import_load_table_gz',
@@ -88,10 +88,17 @@ def run_case(ctx, index):
             return ln
         spec.obs_md = [{'taxonomy': lineage()} for _ in spec.obs_ids]
         ctx.count('with_md_column')
+    pending_special = None
     if r.random() < .3 and spec.D.size:
-        # force an exponent-notation value into the last column
-        spec.D[r.randrange(spec.D.shape[0]), -1] = r.choice(
-            [2.5e-07, 1e-05, 3e+16, 1e+22, 5e-324, 1.7e308, -4e-09])
+        # force an exponent-notation (or non-finite) value into the last
+        # column
+        pending_special = r.choice(
+            [2.5e-07, 1e-05, 3e+16, 1e+22, 5e-324, 1.7e308, -4e-09,
+             float('inf'), float('-inf'), float('nan')])
+        where = r.randrange(spec.D.shape[0])
+        if np.isfinite(pending_special):
+            spec.D[where, -1] = pending_special
+            pending_special = None
     if spec.D.size and 'e' in ''.join(str(np.float64(v)) for v in
                                       spec.D[:, -1]):
         ctx.count('exponent_in_last_column')
@@ -117,6 +124,15 @@ def run_case(ctx, index):
                             '#OTU ID'])
     if index % 8 == 3:
         exporter = 'cli'
+    nonfinite = False
+    if pending_special is not None and exporter in ('to_tsv', 'str',
+                                                    'direct_io'):
+        # inf / nan are numbers of the classic text format (the JSON form
+        # cannot hold them, so only the text routes are driven with them)
+        spec.D[where, -1] = pending_special
+        t = gen.apply_layout(biom, spec, recipe, r)
+        nonfinite = True
+        ctx.count('non_finite_value_in_last_column')
     if exporter == 'str':
         with_md_export = False
     else:
@@ -242,7 +258,10 @@ def run_case(ctx, index):
                  biom.parse.convert_table_to_biom(list(lines), None, None,
                                                   proc)))),
         ]
-        if index % 8 in (3, 5):
+        if nonfinite:
+            importers = [i for i in importers
+                         if i[0] != 'legacy_convert_table_to_biom']
+        if index % 8 in (3, 5) and not nonfinite:
             fmt = 'json' if index % 16 < 8 else 'hdf5'
             if with_md_export and any('' in e['taxonomy']
                                       for e in spec.obs_md):
@@ -299,6 +318,9 @@ def run_case(ctx, index):
             change = r.choice(['negate-observation', 'negate-sample',
                                'rename-samples', 'rename-observations',
                                'presence-absence'])
+            if np.any(np.isnan(spec.D)) and change.startswith('negate'):
+                # the text form has no sign for nan
+                change = 'rename-samples'
             now = spec.copy()
             if change.startswith('negate'):
                 t.transform(lambda v, i, m: -v, axis=change.split('-')[1],
